@@ -339,6 +339,12 @@ def compare_runs(entry, target, base_out, out, ctx):
                 raise Violation(ID, "%s/accepted-with-different-results/%s" % (target, entry.id), "%s: output %r of the unmutated file is missing or has another length after a meaning-preserving edit" % (ctx, k))
             continue
         bad = np.isfinite(b) & ~np.isfinite(m)
+        if bad.any() and not entry.same and int(np.argmax(bad)) > 0:
+            # an accepted edit that legitimately changes the model (a sheet of optional content removed, another valid value) may make the
+            # dynamics ill-posed later in the run (a junction left without outflow proportions, x/0 in a function): that is a property of
+            # the new model, not of the acceptance step.  Only missing inputs - non-finite values at the FIRST time point - are judged here.
+            labels.append("outcome:not-finite-later-in-run(model changed by the edit)")
+            continue
         if bad.any():
             i = int(np.argmax(bad))
             raise Violation(ID, "%s/accepted-but-run-not-finite/%s" % (target, entry.id), "%s: the file is accepted but the run is not finite: %r is %r at time index %d where the unmutated file gives %r (%d non-finite values in this series)" % (ctx, k, float(m[i]), i, float(b[i]), int(bad.sum())))
